@@ -165,6 +165,24 @@ fn alias_free<'a>(fs: &Frags<'a>, sels: &[&'a Selection<'a>], depth: usize) -> b
         Selection::InlineFragment(i) => alias_free(fs, &i.selection_set.selections.iter().collect::<Vec<_>>(), depth + 1),
     })
 }
+/// the guard of the partial equivalence theorems (C01/PlainCore.v plain_list), evaluated here only for the
+/// coverage statistic "how many generated definitions do the theorems speak about"
+fn plain_list(sels: &[Selection]) -> bool {
+    let mut keys: Vec<&str> = vec![];
+    for s in sels {
+        match s {
+            Selection::Field(f) => {
+                let k = f.alias.map(|a| a.name).unwrap_or(f.name.name);
+                if keys.contains(&k) { return false; }
+                keys.push(k);
+                if let Some(a) = f.alias { if a.name == "__typename" || f.name.name == "__typename" { return false; } }
+                if let Some(ss) = &f.selection_set { if !plain_list(&ss.selections) { return false; } }
+            }
+            _ => return false,
+        }
+    }
+    true
+}
 fn root_name(doc: &TypeSystemDocument, op: OperationType) -> String {
     let mut found: Option<String> = None;
     for d in &doc.definitions {
@@ -293,6 +311,7 @@ fn run_doc(out: &mut Out, si: usize, sdl: &str, tsdoc: &TypeSystemDocument, sche
             }
         };
         *out.stats.entry("definitions").or_insert(0) += 1;
+        if plain_list(&sels.selections) { *out.stats.entry("definitions_plain(covered by the partial equivalence theorems)").or_insert(0) += 1; }
         out.terms.push((si, di, format!("CDef {{S}} {{D}} {} {} {} {} {}", idx, tree_term, ts_term, coq_bool(safe), coq_bool(af))));
         let dj = json!({"kind": what, "stream": stream, "definition": idx, "name": name, "schema": sdl, "doc": text, "emitted_type": printed_ty,
                         "merge_safe": safe, "typename_alias_free": af, "classes": classes});
@@ -322,6 +341,7 @@ fn corpus() -> Vec<(&'static str, &'static str)> {
         (S1, "{ b { x y } i { id ... on A { x } } }"),
         (S1, "query Q($v: Boolean!) { a { a { x @skip(if: $v) } } a { a { y @skip(if: $v) } } }"),
         (S1, "query Q { a { x @skip(if: true) x y @include(if: false) } }"),
+        (S1, "query Q($v: Boolean!, $w: Boolean!) { a { x @skip(if: $v) k: y @include(if: $w) id } b { __typename x @include(if: true) } i { id } u { __typename } }"),
     ]
 }
 
